@@ -19,10 +19,10 @@ COMMON_ASSUME = [
 REG = {}
 
 REG["C01"] = dict(
-    harnesses=[H(P, "VerifH_C01_nullScanInt32"), H(P, "VerifH_C01_nullScanWordBoundary"), H(P, "VerifH_C01_dictionaryFallbackBuffer"), H(P, "VerifH_C08_rowGroupRowsSeekRead"), H(E + "delta", "VerifH_C04_deltaInt32", max_seconds={"quick": 400, "thorough": 2400})],
-    explanation="Kernel-wise decision of the write->read path. Decided by the solver on the real code: (K1) the null-run scanner of the typed optional write path (writeRowsFuncOfOptional closure + nullIndex + bitmap): for every vector of n values, the ranges handed to the column writer are contiguous, in order, cover every row once, and carry definition level d+1 exactly for non-zero rows, including windows that cross the 64-row bitmap word boundary after all-null / all-set / alternating prefixes. (K6) row assembly: rowGroupRows over real column buffers/pages returns each row with all its values and levels for flat and repeated columns (shared with C08). (K7) after a dictionary column falls back to PLAIN the buffer that takes the following values is configured for the same levels as the regular buffer (values with every level combination read back intact from both). (K5, shared with C04) the DELTA_BINARY_PACKED int32 encode/decode round trip for unrestricted values (first value and deltas at the int32 extremes included), one of the encodings every written value passes through; the other encodings are decided under C04. The end-to-end file round trip (reflection, Thrift, codecs, I/O) is outside the claim; bounds/indexes are decided under C05.",
-    bounds={"quick": "n<=6 symbolic int32 rows; word-boundary windows: concrete prefix 60..63 rows x3 patterns + 2..4 symbolic rows", "thorough": "n<=10; windows up to 6 symbolic rows"},
-    outside=["whole-file round trip through reflection, Thrift and codecs", "page framing (K2), row batching (K3), buffer-to-page value readers per type (K4), page decode accounting (K5)"],
+    harnesses=[H(P, "VerifH_C01_nullScanInt32"), H(P, "VerifH_C01_nullScanWordBoundary"), H(P, "VerifH_C01_dictionaryFallbackBuffer"), H(P, "VerifH_C01_pageBodyFraming"), H(P, "VerifH_C01_columnBufferRoundTrip"), H(P, "VerifH_C08_rowGroupRowsSeekRead"), H(E + "delta", "VerifH_C04_deltaInt32", max_seconds={"quick": 400, "thorough": 2400})],
+    explanation="Kernel-wise decision of the write->read path. Decided by the solver on the real code: (K1) the null-run scanner of the typed optional write path (writeRowsFuncOfOptional closure + nullIndex + bitmap): for every vector of n values, the ranges handed to the column writer are contiguous, in order, cover every row once, and carry definition level d+1 exactly for non-zero rows, including windows that cross the 64-row bitmap word boundary after all-null / all-set / alternating prefixes. (K6) row assembly: rowGroupRows over real column buffers/pages returns each row with all its values and levels for flat and repeated columns (shared with C08). (K7) after a dictionary column falls back to PLAIN the buffer that takes the following values is configured for the same levels as the regular buffer (values with every level combination read back intact from both). (K5, shared with C04) the DELTA_BINARY_PACKED int32 encode/decode round trip for unrestricted values (first value and deltas at the int32 extremes included), one of the encodings every written value passes through; the other encodings are decided under C04. (K2) page-body framing: the writer's encodeLevels + prependLevelsToDataPageV1 (v1: length-prefixed sections) resp. back-to-back v2 sections against the reader's decodeLevelsV1/decodeLevelsV2 with the RLE level encoding: repetition levels, definition levels and the value bytes come back unchanged for every level vector. (K4) column buffer -> page -> value reader for every physical type (boolean bit-packing, int32, int64, int96, float, double, byte-array offsets, fixed-len 3 and the 16-byte be128 buffer): values written in two batches are read back bit-identical with any read batch size. The end-to-end file round trip (reflection, Thrift, codecs, I/O) is outside the claim; bounds/indexes are decided under C05.",
+    bounds={"quick": "n<=6 symbolic int32 rows; word-boundary windows: concrete prefix 60..63 rows x3 patterns + 2..4 symbolic rows; framing: max rep level 0..2, max def level 0..3, 1..4 values, 0..4 value bytes; column buffers: 1..3 values, byte arrays of 0..2 bytes, read batch 1..3", "thorough": "n<=10; windows up to 6 symbolic rows; column buffers 1..4 values"},
+    outside=["whole-file round trip through reflection, Thrift and codecs", "row batching (K3), page decode accounting (K5: decodeDataPage with dictionary indexes and decompression)"],
 )
 REG["C03"] = dict(
     harnesses=[H(P, "VerifH_C01_nullScanInt32"), H(P, "VerifH_C03_nullScanKinds"), H(P, "VerifH_C03_nullScanIntKinds")],
@@ -96,10 +96,10 @@ REG["C10"] = dict(
 )
 
 REG["C09"] = dict(
-    harnesses=[H(P, "VerifH_C09_merge2"), H(P, "VerifH_C09_mergeK"), H(P, "VerifH_C09_mergeRuns"), H(P, "VerifH_C09_runLength"), H(P, "VerifH_C09_dedupe"), H(P, "VerifH_C09_disjointSegments")],
-    explanation="MergeRowReaders on model row readers that serve sorted inputs with symbolic int64 keys (sortedness is the only assumption) in chosen chunkings, drained with chosen batch sizes: for every key assignment the merged output is sorted, has exactly the rows of the inputs, and keeps each input's rows in their original relative order (rows carry concrete (input, position) tags the comparator ignores). Covers the 2-way reader (mergedRowReader2 incl. the galloping run emission after a streak) and the k-way tournament tree (mergedRowReader, 3..4 inputs incl. empty ones), runLength against a linear scan for both tie modes, and DedupeRowReader (first row of every run of equal keys, order kept, across batch boundaries). (K5) overlappingRowGroups with rowGroupRangeOfSortedColumns over model row groups (symbolic first/last rows, symbolic valid page bounds, two sorting columns with every direction combination, the real Schema.Comparator): every row group lands in exactly one segment, and row groups in different segments are really ordered (last row of the earlier <= first row of the later), so concatenating segments keeps the output sorted.",
-    bounds={"quick": "2-way: inputs of <=3 rows, 1-row or unbounded source chunks, batch 1..3; k-way: 3 inputs of <=2 rows, batch 2/4; runs: 6+2 rows, batch 3..8; runLength: window <=6; dedupe: <=4 rows, chunks 0..2, batch 1..3; segments: 2 row groups, keys (a,b) of 8-bit range, 4 direction combinations", "thorough": "2-way second input <=4 rows; k-way 4 inputs; dedupe <=5 rows"},
-    outside=["range refinement inside a segment (merge_refine.go, DESIGN K6 not built yet)", "merges over real files and WriteRowGroup(merged)", "multi-column and nullable keys, descending order"],
+    harnesses=[H(P, "VerifH_C09_merge2"), H(P, "VerifH_C09_mergeK"), H(P, "VerifH_C09_mergeRuns"), H(P, "VerifH_C09_runLength"), H(P, "VerifH_C09_dedupe"), H(P, "VerifH_C09_disjointSegments"), H(P, "VerifH_C09_refineCutLookups")],
+    explanation="MergeRowReaders on model row readers that serve sorted inputs with symbolic int64 keys (sortedness is the only assumption) in chosen chunkings, drained with chosen batch sizes: for every key assignment the merged output is sorted, has exactly the rows of the inputs, and keeps each input's rows in their original relative order (rows carry concrete (input, position) tags the comparator ignores). Covers the 2-way reader (mergedRowReader2 incl. the galloping run emission after a streak) and the k-way tournament tree (mergedRowReader, 3..4 inputs incl. empty ones), runLength against a linear scan for both tie modes, and DedupeRowReader (first row of every run of equal keys, order kept, across batch boundaries). (K5) overlappingRowGroups with rowGroupRangeOfSortedColumns over model row groups (symbolic first/last rows, symbolic valid page bounds, two sorting columns with every direction combination, the real Schema.Comparator): every row group lands in exactly one segment, and row groups in different segments are really ordered (last row of the earlier <= first row of the later), so concatenating segments keeps the output sorted. (K6) range refinement inside a segment: newCutLookups over a model paged row group (real offset-index/column-index interfaces, symbolic valid page bounds and page row counts, ascending and descending sorting column): every row at or after cutAbove(key) sorts strictly after key, every row before cutBelow(key) sorts strictly before key, and cuts fall on page boundaries, so a range cut out of a row group never moves a row across a key it must stay on one side of.",
+    bounds={"quick": "refine: <=3 pages of 1..2 rows, 8-bit keys; 2-way: inputs of <=3 rows, 1-row or unbounded source chunks, batch 1..3; k-way: 3 inputs of <=2 rows, batch 2/4; runs: 6+2 rows, batch 3..8; runLength: window <=6; dedupe: <=4 rows, chunks 0..2, batch 1..3; segments: 2 row groups, keys (a,b) of 8-bit range, 4 direction combinations", "thorough": "2-way second input <=4 rows; k-way 4 inputs; dedupe <=5 rows"},
+    outside=["the rest of merge_refine.go (refineSegment's choice of cut keys and the rowRangeRowGroup views)", "merges over real files and WriteRowGroup(merged)", "multi-column and nullable keys, descending order"],
 )
 
 REG["C08"] = dict(
